@@ -8,6 +8,9 @@ UNIT_SAFETY = {
     "chunk": "C01",
     "pwb": "C01",
     "pwbchunks": "C01",
+    "ring": "C09",
+    "scan": "C19",
+    "cbtime": "C20",
 }
 
 PROPS = {
@@ -38,6 +41,21 @@ PROPS = {
     "C05": {
         "title": "PWB packet decoding is exact",
         "units": ["pwb"],
+        "level": "proof",
+    },
+    "C13": {
+        "title": "Reconstruction respects the detector's cylindrical symmetry (index layer)",
+        "units": ["ring"],
+        "level": "proof",
+    },
+    "C19": {
+        "title": "Vertex/scaler CSVs: unwrapped time (scan step only)",
+        "units": ["scan"],
+        "level": "proof",
+    },
+    "C20": {
+        "title": "Chronobox timestamps CSV never reports a wrong time (time arithmetic)",
+        "units": ["cbtime"],
         "level": "proof",
     },
     "C06": {
